@@ -496,9 +496,14 @@ func BuildSymbol(sym, id string) (b []byte, action string) {
 			m["encryption"] = parts[3]
 		}
 		return j(m), ""
-	case "auth": // auth:<idv>:<cred>
+	case "auth", "authas": // auth:<idv>:<cred> | authas:<state>:<cred> (credentials under another state, right id)
 		m := map[string]interface{}{"state": "authenticating", "from": "alice@verif.local/home"}
-		idv(parts[1], m)
+		if parts[0] == "authas" {
+			m["state"] = parts[1]
+			idv("id", m)
+		} else {
+			idv(parts[1], m)
+		}
 		switch parts[2] {
 		case "guest-uuid":
 			m["from"] = GuestUUID + "@verif.local/home"
@@ -571,6 +576,7 @@ func Alphabet() []string {
 		"neg:id:none:none", "neg:id:none:tls", "neg:id:gzip:none", "neg:id:-:tls", "neg:id:none:-", "neg:id:zzz:none", "neg:id:none:zzz", "neg:bad:none:none", "neg:none:none:tls",
 		"auth:id:guest-uuid", "auth:id:guest-nonuuid", "auth:id:plain-good", "auth:id:plain-bad", "auth:id:plain-notb64", "auth:id:key", "auth:id:transport", "auth:id:external",
 		"auth:id:noscheme", "auth:id:scheme-only", "auth:id:unknown-scheme", "auth:id:nofrom", "auth:bad:guest-uuid", "auth:none:guest-uuid", "auth:bad:plain-good",
+		"authas:negotiating:plain-good", "authas:established:guest-uuid", "authas:finishing:key",
 		"state:established", "state:finishing", "state:finished", "state:failed",
 		"msg", "not", "req", "resp",
 		"garbage", "emptyobj", "array", "string", "trunc",
